@@ -43,6 +43,20 @@ def decide(src1, src2, routine, K, E, key, timeout_ms=20000, flags=(), setup=Non
     except Unsupported as e:
         out["status"] = "unsupported"
         out["why"] = str(e)
+        # the transformed text may simply not be valid Fortran (undeclared or mis-ordered entity):
+        # decided by the compiler, not by the solver
+        try:
+            equiv.build(src1, routine, K, E, setup=setup)
+            ok2, err2 = gfortran_syntax(src2)
+            if ok2 is False:
+                ok1, _ = gfortran_syntax(src1)
+                if ok1:
+                    out["status"] = "does_not_compile"
+                    out["why"] = err2[-400:]
+                    out["replay_text"] = ("! ---- original ----\n" + src1 + "\n! ---- transformed ----\n" + src2 +
+                                          "\n! ---- gfortran -fsyntax-only ----\n" + err2)
+        except Unsupported:
+            pass
         return out
     out["solver_s"] = res.solver_s
     out["nontrivial"] = bool(res.nontrivial)
@@ -72,6 +86,25 @@ def decide(src1, src2, routine, K, E, key, timeout_ms=20000, flags=(), setup=Non
     return out
 
 
+def gfortran_syntax(src):
+    import os
+    import shutil
+    import subprocess
+    import tempfile
+    d = tempfile.mkdtemp(prefix="tvsyn_")
+    try:
+        with open(os.path.join(d, "u.f90"), "w", encoding="utf-8") as fh:
+            fh.write(src)
+        try:
+            p = subprocess.run(["gfortran", "-fsyntax-only", "-fimplicit-none", "-ffree-line-length-none", "u.f90"],
+                               cwd=d, capture_output=True, text=True, timeout=300)
+        except subprocess.TimeoutExpired:
+            return None, "timeout"
+        return p.returncode == 0, p.stderr[-1500:]
+    finally:
+        shutil.rmtree(d, ignore_errors=True)
+
+
 def aggregate(chk, outcomes, unit_of=lambda k: k.get("unit")):
     """Fold worker outcomes into the Check."""
     seen = set()
@@ -89,6 +122,12 @@ def aggregate(chk, outcomes, unit_of=lambda k: k.get("unit")):
             chk.cov.setdefault("unsupported_reasons", {})
             r = o.get("why", "?")[:60]
             chk.cov["unsupported_reasons"][r] = chk.cov["unsupported_reasons"].get(r, 0) + 1
+            continue
+        if st == "does_not_compile":
+            chk.count("non_solver_obligations")
+            k = dict(o["key"], params=dict(o["key"].get("params", {}), what="does not compile"))
+            chk.report(k, f"{o['key'].get('unit')} on {o['key'].get('template')} {o['key'].get('params')}: the "
+                       f"transformed code does not compile: {o.get('why', '')[:200]}", o.get("replay_text", ""))
             continue
         if st == "psyclone_error":
             chk.cov["by_products"].append({"key": o["key"], "error": o.get("why", "")[:300]})
